@@ -34,13 +34,15 @@ RULE = ("dense / sparse / Kruskal / Tucker / sum holders of small-integer data o
         "(repeats, any order) and mixing matrices on any subset of modes in any order, Tucker tensors with a sparse "
         "core (full, ttv with scalar / dense-core / sparse-core results); "
         "family dtypes (ALWAYS, every tier): every dense kernel, and the sparse / Tucker ones whose vals / core / "
-        "factors can carry a type, on data stored as int8 / uint8 / int16 / int32 / int64 / float32 / bool (float64 = "
-        "control) with positive magnitudes for which one product of two entries already leaves the type (or its 24-bit "
-        "significand, or {0,1}), multiplicands / second operands / factors stored in the same type and in float64; the "
-        "result is compared with the exact Lean spec value of the stored integers (exactly when it fits 53 bits, to "
-        "1e-12 relative otherwise); combinations in DTYPE_PENDING (reported deviations of the unchanged code, awaiting "
-        "confirmation) are run and tagged pending-deviation but not asserted, every other combination is asserted "
-        "(norm of integer data, collapse, contract, dense scale, everything with float64 multiplicands); "
+        "factors can carry a type (incl. Tucker ttm and reconstruct), on data stored as int8 / uint8 / int16 / int32 / "
+        "int64 / float32 / bool (float64 = control) with positive magnitudes for which one product of two entries "
+        "already leaves the type (or its 24-bit significand, or {0,1}), multiplicands / second operands / factors "
+        "stored in the same type and in float64; ttv with ONE bare vector of each type on dense / sparse / Tucker / "
+        "Kruskal holders; the result is compared with the exact Lean spec value of the stored integers (exactly when "
+        "it fits 53 bits, to 1e-12 relative otherwise) and every combination is asserted, except float32 norm "
+        "(DTYPE_PENDING: single-precision rounding, tagged pending-deviation, not a defect); tensor.ttt and sparse "
+        "scale on same-typed non-float64 operands are the known findings K02-ttt-storage-dtype / "
+        "K02-sp-scale-storage-dtype, accepted only when the result is exactly numpy's arithmetic in that type; "
         "the same array held five ways; plus a malformed stream (wrong sizes, contradictory mode "
         "designations). Each implementation result is compared with the Lean spec value (sum over indices) and with "
         "the Lean model. non-trivial = accepted and operand has a non-zero entry; distinct = distinct case hash")
